@@ -101,6 +101,14 @@ func (p Ptr) sub(i int) Ptr {
 	return Ptr{p.C, np}
 }
 
+// ptrKey: a map key identifying the addressed slot.
+func (c *Ctx) ptrKey(p Ptr) string {
+	if p.C == nil {
+		return "nil"
+	}
+	return fmt.Sprintf("%d%v", p.C.id, p.Path)
+}
+
 func ptrEq(a, b Ptr) bool {
 	if a.C != b.C || len(a.Path) != len(b.Path) {
 		return false
